@@ -70,6 +70,9 @@ var mutants = []mutant{
 	{"C18-append-overwrites-last", "C18", "feed/feed.go", "f.feed[f.upperBound+i] = element", "f.feed[f.upperBound+i-1] = element", "C18.R3"},
 	{"C18-prepend-bound-short", "C18", "feed/feed.go", "f.lowerBound -= len(input)", "f.lowerBound -= len(input) - 1", "C18.R3"},
 	{"C18-parent-includes-opened", "C18", "feed/feed.go", "return f.index+offset < 0", "return f.index+offset <= 0", "C18.R4"},
+	{"C18-add-clears-current", "C18", "history/history.go", "\th.elements = append(h.elements[:h.index+1], element)\n\th.index += 1", "\tfor i := h.index; i < len(h.elements); i++ {\n\t\th.elements[i] = element\n\t}\n\th.elements = append(h.elements[:h.index+1], element)\n\th.index += 1", "C18.R1"},
+	{"C18-list-constructor-falls-back", "C18", "feed/feed.go", "func CreateAndAppend(input []pub.Tangible) *Feed {\n", "func CreateAndAppend(input []pub.Tangible) *Feed {\n\tif len(input) == 0 {\n\t\treturn CreateEmpty()\n\t}\n", "C18.R4"},
+	{"C18-history-copied-and-restored", "C18", "ui/ui.go", "func (s *State) switchTo(item any) {\n", "func (s *State) switchTo(item any) {\n\tprevious := s.h\n\tdefer func() {\n\t\tif s.h.Current() == nil {\n\t\t\ts.h = previous\n\t\t}\n\t}()\n", "C18.R1"},
 	{"C18-get-off-by-one", "C18", "feed/feed.go", "return f.feed[f.index+offset]\n}\n\nfunc (f *Feed) Current", "return f.feed[f.index+offset+1]\n}\n\nfunc (f *Feed) Current", "C18.R4"},
 	// C16
 	{"C16-spare-row-unfixed", "C16", "ansi/ansi.go", "\tif topBufferSize == 0 {\n", "\tif topBufferSize == 0 && prefixHeight == 0 {\n", "C16.R1"},
